@@ -14,6 +14,20 @@ tzinfo subclass that is not datetime.timezone; item timestamps are also served s
 'Z' (extras tzspell = spelling scheme: which offset of SPELL_ZONES each item gets), with and without fractional seconds. The reference compares instants.
 A date value in a case is either `ms` (offset from T0 in ms, bound given in UTC) or `[ms, zone_minutes]` / `[ms, zone_minutes,
 "sub"]` (same instant, bound expressed in that zone / through the tzinfo subclass). Naive bounds are outside the space.
+
+Item shapes (which OPTIONAL members a drive item carries - "optional fields missing" and its mirror image, optional
+members present): extras shape = scheme s; child number idx of a folder (timestamp index ti) is served with profile
+PROFILES[(idx + ti + s) % len(PROFILES)]: plain | listItem with custom columns (scalars) | listItem with system columns
+only | listItem with structured column values (lookup dict, multi-choice list, bool, null) | listItem without fields /
+empty fields | listItem null / fields not a dict | lean (no size, no webUrl, empty file facet) | rich (downloadUrl, eTag,
+cTag, createdBy, parentReference, fileSystemInfo, file.hashes, size 0). Folders carry the same listItem / rich members.
+Over s in range(len(PROFILES)) every file of the library gets every profile. Per (library, scheme): shape_calls = plain
+listing, folder listings, every 1-dimension value of extensions / path_patterns (+ PATTERNS_EXTRA) / folder_paths, date
+dimensions (quick: one value each, thorough: all), pattern x folder and pattern x extension pairs (thorough), the
+*_since helpers. Quick: all schemes on libraries with <= 2 folders, schemes {0, len/2} on 3 folders; thorough: all
+schemes on <= 3 folders, schemes {0, len/2} on 4. The listing reference does not depend on the profile.
+Result records: for every returned record get_full_path() must equal parent_path/name (clause fullpath) - in every
+evaluation of every family.
 """
 from __future__ import annotations
 
@@ -40,6 +54,9 @@ ZONES_QUICK = [120, -300, 330]
 ZONES_THOROUGH = [120, -300, 330, 0, 840, -720]
 # item timestamp spelling schemes: scheme s serves item number idx (timestamp index ti) in zone SPELL_ZONES[(idx + ti + s) % len]
 SPELL_ZONES = [120, 0, -300, 330, 840, -720]
+# item-shape profiles (optional members of a drive item), see module docstring
+PROFILES = ["plain", "li-custom", "li-system", "li-structured", "li-nofields", "li-null", "lean", "rich"]
+PATTERNS_EXTRA = [["?.pdf"], ["*.PDF"], ["A/*", "*.txt"], ["[ab].*"]]
 FAULT_KINDS = ["http400", "http401", "http404", "http429", "http500", "http503", "urlerror", "badjson", "status302", "status500"]
 
 
@@ -127,6 +144,8 @@ class Transport:
 
     def _index(self, kids, fid, path):
         self.index[fid] = kids
+        self._fpath = getattr(self, "_fpath", {})
+        self._fpath[fid] = path
         for i, k in enumerate(kids):
             if k[0] == "d":
                 cid = f"F{len(self.index)}"
@@ -136,7 +155,15 @@ class Transport:
                 self._ids[id(k)] = cid
                 self._index(k[2], cid, k_path)
 
-    def item_json(self, k, idx):
+    def item_json(self, k, idx, fid=None):
+        it = self._item_json(k, idx)
+        sh = self.extras.get("shape")
+        if sh is not None:
+            ti = k[2] if k[0] == "f" else 0
+            apply_profile(it, PROFILES[(idx + ti + sh) % len(PROFILES)], self._fpath.get(fid, ""))
+        return it
+
+    def _item_json(self, k, idx):
         if k[0] == "d":
             # the folder facet's childCount is optional in Graph: every other folder omits it
             facet = {"childCount": len(k[2])} if (len(k[1]) + len(k[2])) % 2 == 0 else {}
@@ -194,7 +221,7 @@ class Transport:
                 if fid not in self.index:
                     raise KeyError(fid)
             kids = self.index[fid]
-            items = [self.item_json(k, i) for i, k in enumerate(kids)]
+            items = [self.item_json(k, i, fid) for i, k in enumerate(kids)]
             if self.extras.get("nondict") and fid is None:
                 items.insert(1 if items else 0, "garbage")
             if self.extras.get("nofacet") and fid is None:
@@ -213,6 +240,42 @@ class Transport:
             # maybe a file path
             raise KeyError(p)
         raise AssertionError("unexpected url " + url)
+
+
+def apply_profile(it, profile, parent):
+    """Add / remove the optional members of a drive item (file or folder) according to the profile; the item's name, id, facet
+    kind and item-level timestamps - what the listing is defined by - never change."""
+    name = it["name"]
+    sysf = {"@odata.etag": '"e,1"', "id": "7", "FileLeafRef": name, "ContentType": "Document", "Modified": "2024-01-15T10:30:00Z",
+            "Created": "2024-01-15T10:30:00Z", "AuthorLookupId": "3", "EditorLookupId": "3", "_UIVersionString": "1.0"}
+    if profile == "li-custom":
+        it["listItem"] = {"@odata.etag": '"e,1"', "id": "7", "fields": dict(sysf, Dept="X", Year=2019, Title0="t \u00fc")}
+    elif profile == "li-system":
+        it["listItem"] = {"id": "7", "fields": dict(sysf)}
+    elif profile == "li-structured":
+        it["listItem"] = {"id": "7", "fields": {"Owner": {"LookupId": 3, "LookupValue": "Ann"}, "Tags": ["a", "b"], "Flag": True,
+                                                "Note": None, "Ratio": 0.5, "FileLeafRef": name}}
+    elif profile == "li-nofields":
+        it["listItem"] = {"id": "7"} if len(name) % 2 else {"id": "7", "fields": {}}
+    elif profile == "li-null":
+        it["listItem"] = None if len(name) % 2 else {"id": "7", "fields": ["Dept", "X"]}
+    elif profile == "lean":
+        it.pop("webUrl", None)
+        it.pop("size", None)
+        if "file" in it:
+            it["file"] = {}
+    elif profile == "rich":
+        who = {"user": {"displayName": "Ann", "email": "a@h", "id": "u-1"}}
+        it.update({"@odata.etag": '"e,2"', "eTag": '"e,2"', "cTag": '"c:e,2"', "createdBy": who, "lastModifiedBy": who,
+                   "parentReference": {"driveId": "b!d", "driveType": "documentLibrary", "id": "p-1", "siteId": "SITE",
+                                       "path": "/drive/root:" + ("/" + parent if parent else "")}})
+        fsi = {k2: it[k] for k, k2 in (("createdDateTime", "createdDateTime"), ("lastModifiedDateTime", "lastModifiedDateTime")) if k in it}
+        it["fileSystemInfo"] = fsi
+        if "file" in it:
+            it["@microsoft.graph.downloadUrl"] = "https://h/dl/" + urllib.parse.quote(name)
+            it["file"] = dict(it["file"], hashes={"quickXorHash": "AAAA"})
+            it["size"] = 0
+            it["shared"] = {"scope": "users"}
 
 
 # ---------------------------------------------------------------- reference walk
@@ -374,14 +437,13 @@ def make_filter(flt):
     return FileFilter(**kw)
 
 
-def do_call(client, call):
-    """Returns list of (parent_path, name)"""
+def do_call(client, call, probs=None):
+    """Returns list of (parent_path, name); problems with the returned records' full-path accessor are appended to probs"""
     kind = call[0]
     if kind == "all":
         res = client.list_all_files()
     elif kind == "folder":
         res = client.list_files_in_folder(call[1])
-        return [(None, r.name) for r in res]          # parent path of this non-recursive listing is not judged
     elif kind == "filtered":
         res = list(client.list_files_filtered(make_filter(call[1])))
     elif kind == "modified_since":
@@ -390,6 +452,18 @@ def do_call(client, call):
         res = list(client.list_files_created_since(bound(call[1]), folder_paths=call[2] or None, extensions=call[3] or None))
     else:
         raise ValueError(kind)
+    if probs is not None:
+        for r in res:
+            try:
+                fp = r.get_full_path()
+            except Exception as e:  # noqa
+                probs.append(f"get_full_path() of returned record {r.name!r} (parent {r.parent_path!r}) raised {type(e).__name__}: {e}")
+                continue
+            want = f"{r.parent_path}/{r.name}" if r.parent_path else r.name
+            if fp != want:
+                probs.append(f"get_full_path() of returned record {r.name!r} (parent {r.parent_path!r}) is {fp!r}, expected {want!r}")
+    if kind == "folder":
+        return [(None, r.name) for r in res]          # parent path of this non-recursive listing is not judged
     return [(r.parent_path, r.name) for r in res]
 
 
@@ -425,8 +499,9 @@ def run_case(case):
     tr = Transport(lib, page, faults, case.get("extras"))
     c = new_client(tr)
     if not faults:
+        probs = []
         try:
-            got = do_call(c, call)
+            got = do_call(c, call, probs)
         except SharePointError as e:
             if exp is None:
                 return [], {"n": tr.n, "out": "error-missing-folder"}
@@ -439,6 +514,8 @@ def run_case(case):
                 extra = [x for x in got if x not in exp]
                 dup = len(got) != len(set(got)) and not (len(exp) != len(set(exp)))
                 fails.append(("listing", f"call {call}: missing {missing} unexpected {extra}{' duplicates' if dup else ''}; got {got}"))
+        if probs:
+            fails.append(("fullpath", f"call {call}: {probs[0]}" + (f" (+{len(probs) - 1} more)" if len(probs) > 1 else "")))
         unclosed = sum(1 for r in tr.resps if r.closed < 1)
         if unclosed:
             fails.append(("unclosed", f"{unclosed} responses never closed in a healthy run"))
@@ -557,6 +634,8 @@ def fingerprint_view(case):
     c["call"] = call
     if (c.get("extras") or {}).get("tzspell") is not None:
         c["extras"] = dict(c["extras"], tzspell="any")
+    if (c.get("extras") or {}).get("shape") is not None:
+        c["extras"] = dict(c["extras"], shape="any")
     return c
 
 
@@ -671,6 +750,47 @@ def spell_calls(tier):
         yield ["created_since", [since, zones[2]], [], []]
 
 
+def shape_calls(tier):
+    """Calls evaluated against libraries whose items carry / lack optional members (extras shape), see module docstring."""
+    quick = tier == "quick"
+    base = {k: v[0] for k, v in FILTER_DIMS.items()}
+    yield ["all"]
+    yield ["folder", "/"]
+    yield ["folder", "A"]
+    yield ["filtered", dict(base)]
+    for dim, vals in (("extensions", FILTER_DIMS["extensions"][1:]), ("path_patterns", FILTER_DIMS["path_patterns"][1:] + PATTERNS_EXTRA),
+                      ("folder_paths", FILTER_DIMS["folder_paths"][1:])):
+        for v in vals:
+            f = dict(base)
+            f[dim] = v
+            yield ["filtered", f]
+    for dim in ("modified_after", "modified_before", "created_after", "created_before"):
+        for v in ([0] if quick else DATE_VALUES[1:]):
+            f = dict(base)
+            f[dim] = v
+            yield ["filtered", f]
+    if not quick:
+        for pat in FILTER_DIMS["path_patterns"][1:] + PATTERNS_EXTRA:
+            for other in ("folder_paths", "extensions"):
+                for vo in FILTER_DIMS[other][1:]:
+                    f = dict(base)
+                    f["path_patterns"] = pat
+                    f[other] = vo
+                    yield ["filtered", f]
+    else:
+        f = dict(base)                                   # one pattern x folder pair: the pattern sees the path below the start folder
+        f["path_patterns"] = ["A/*"]
+        f["folder_paths"] = ["A", "C d"]
+        yield ["filtered", f]
+    yield ["modified_since", 0, [], []]
+    yield ["created_since", 0, ["A"], [".pdf"]]
+
+
+def shape_schemes(tier, nfolders):
+    full = nfolders <= (2 if tier == "quick" else 3)
+    return list(range(len(PROFILES))) if full else [0, len(PROFILES) // 2]
+
+
 FAULT_CALLS = [["all"], ["folder", "A"], ["filtered", {"folder_paths": ["A"], "extensions": [".pdf"], "modified_after": 0, "modified_before": None,
                                                          "created_after": None, "created_before": None, "path_patterns": []}],
                ["modified_since", 0, ["A/B"], []]]
@@ -729,6 +849,17 @@ def _part(arg):
                         outs["spelled:" + str(info.get("out"))] = outs.get("spelled:" + str(info.get("out")), 0) + 1
                         for clause, msg in f:
                             fails.append((clause, "healthy", case, msg))
+            # item shapes: optional members of the drive items present / absent (independent of pagination: one page size)
+            if page == pages[-1]:
+                for sh in shape_schemes(tier, nfolders):
+                    for call in shape_calls(tier):
+                        case = {"lib": lib, "page": page, "call": call, "extras": {"shape": sh}}
+                        f, info = run_case(case)
+                        ev += 1
+                        requests += info.get("n", 0)
+                        outs["shaped:" + str(info.get("out"))] = outs.get("shaped:" + str(info.get("out")), 0) + 1
+                        for clause, msg in f:
+                            fails.append((clause, "healthy", case, msg))
             # extras: non-dict item, item without facet
             for extras in ({"nondict": 1}, {"nofacet": 1}):
                 case = {"lib": lib, "page": page, "call": ["all"], "extras": extras}
@@ -772,7 +903,8 @@ def run(ctx):
     n = ctx.ncpu * 4
     args = [(ctx.tier, k, n, ctx.seed) for k in range(n)]
     random.Random(ctx.seed).shuffle(args)
-    res = P.run_all("verif.props.C18", "_part", args, n=ctx.ncpu, hard_timeout=3000)
+    # the hard timeout is a wall-clock safety net only (a partition needs ~10 CPU-s quick / ~130 CPU-s thorough); generous on a shared machine
+    res = P.run_all("verif.props.C18", "_part", args, n=ctx.ncpu, hard_timeout=3000 if ctx.quick else 14400)
     ev = req = 0
     fails = []
     outs = {}
@@ -798,15 +930,24 @@ def run(ctx):
                    + str(ZONES_QUICK if ctx.quick else ZONES_THOROUGH) + ") incl. a non-timezone tzinfo, *_since helpers x zone, (after, before) windows x "
                    "ordered pairs of distinct zones, zoned bound x non-date dimensions; item timestamps spelled with numeric offsets ("
                    + str(2 if ctx.quick else len(SPELL_ZONES)) + " spelling schemes over offsets " + str(SPELL_ZONES) + ") x date filters; "
+                   "item shapes: optional drive-item members by profile " + str(PROFILES) + " assigned by scheme (all " + str(len(PROFILES))
+                   + " schemes on <= " + str(2 if ctx.quick else 3) + " folders, 2 schemes above: every file gets every profile) x "
+                   + str(len(list(shape_calls(ctx.tier)))) + " calls (listing, folder listings, extensions / path patterns incl. " + str(PATTERNS_EXTRA)
+                   + " / folder paths, dates, pairs, *_since); every returned record's get_full_path() == parent_path/name in all families; "
                    "distinct_nontrivial = distinct (phase, fault kind, outcome) classes",
            "transport_requests": req, "outcomes": outs, "samples": samples[:5], "exhaustive": True,
            "bounds": {"folders": 3 if ctx.quick else 4, "files_per_folder": 2, "page_sizes": "1..2" if ctx.quick else "1..3", "fault_depth": 1 if ctx.quick else 2,
                       "bound_zones_min": ZONES_QUICK if ctx.quick else ZONES_THOROUGH, "item_offset_spellings": 2 if ctx.quick else len(SPELL_ZONES),
-                      "zoned_calls_per_library": len(list(zone_calls(ctx.tier))), "spelled_calls_per_library_and_scheme": len(list(spell_calls(ctx.tier)))}}
+                      "zoned_calls_per_library": len(list(zone_calls(ctx.tier))), "spelled_calls_per_library_and_scheme": len(list(spell_calls(ctx.tier))),
+                      "item_profiles": PROFILES, "shape_schemes": {"full_up_to_folders": 2 if ctx.quick else 3, "above": [0, len(PROFILES) // 2]},
+                      "shaped_calls_per_library_and_scheme": len(list(shape_calls(ctx.tier)))}}
     return {"coverage": cov, "failures": fails, "harness_errors": herr,
             "assumptions": ["fake transport models Graph children / root:/path / token / site-id URLs with skip-style nextLink",
                             "HTTP 404 at the folder-lookup request is documented 'folder not found' behaviour and is not judged",
                             "fractional seconds are truncated by the client's ISO parser (its docstring says so); the reference compares truncated values",
                             "pattern semantics = fnmatchcase on the full path (statement: patterns apply to the full path)",
+                            "which optional members (listItem / custom columns, size, webUrl, mimeType, downloadUrl, eTag, parentReference, "
+                            "fileSystemInfo ...) a drive item carries does not change the listing; item name, id, facet and item-level timestamps "
+                            "define it. The full path of a returned record is read through its get_full_path() accessor",
                             "an aware datetime bound and an ISO-8601 timestamp with a numeric offset denote instants; the filters are judged on instants. "
                             "Naive (tz-less) bounds have no defined instant and are not explored"]}
